@@ -373,6 +373,11 @@ def selftest(ctx):
     n2, bad2 = validate_calls(ctx, "Trace_HyphenList", "Trace_HyphenList.cfg", mf, parts=2)
     rejected = {json.dumps(e, sort_keys=True) for e, v in bad2}
     unexplained = {json.dumps(e, sort_keys=True) for e, v in bad2 if not all(ctx.finding_for(x) for x in v["key"].split("+"))}
+    # a missing position in a word the code never tries is what `abort_consumes_glue` looks like: such an
+    # instance of the last corruption is not applicable (rejected by the strict spec, explained by the finding)
+    na = "a permitted position without discretionary"
+    muts = [e for e in muts if not (e["mutation"] == na and json.dumps(e, sort_keys=True) in rejected
+                                    and json.dumps(e, sort_keys=True) not in unexplained)]
     missed = [e for e in muts if json.dumps(e, sort_keys=True) not in unexplained]
     kinds = {}
     for e in muts:
